@@ -410,3 +410,72 @@ mut("C11", "client_skips_ack_send_on_error", "acks are dropped when one message 
                 error!("unable to buffer mutate message: {e}");
                 return;
             }"""))
+
+# ------------------------------------------------------------------ C09
+mut("C09", "reintroduce_d8_buffers_not_reset", "server::reset forgets the despawn buffer", ["DespawnBuffer/reset-on-stop"],
+    ("src/server.rs", "    despawn_buffer.clear();\n    removal_buffer.clear();\n", "    removal_buffer.clear();\n    let _ = &mut despawn_buffer;\n"))
+mut("C09", "client_reset_forgets_buffered_mutations", "buffered mutate messages survive a reconnect", ["BufferedMutations/reset-on-disconnect"],
+    ("src/client.rs", "    entity_map.clear();\n    buffered_mutations.clear();\n", "    entity_map.clear();\n    let _ = &mut buffered_mutations;\n"))
+mut("C09", "client_reset_forgets_update_tick", "the last update tick survives a reconnect", ["ServerUpdateTick/reset-on-disconnect"],
+    ("src/client.rs", "    *update_tick = Default::default();\n    entity_map.clear();", "    let _ = &mut update_tick;\n    entity_map.clear();"))
+mut("C09", "entity_map_clear_one_direction", "ServerEntityMap::clear forgets the reverse map", ["ServerEntityMap::clear/touches-every-field"],
+    ("src/shared/server_entity_map.rs", "        self.client_to_server.clear();\n        self.server_to_client.clear();", "        self.server_to_client.clear();"))
+mut("C09", "event_queues_not_reset", "queued server events survive into the next session", ["ServerEvent::queue_id/reset-on-connect"],
+    ("src/client/event.rs", """    for event in event_registry.iter_all_server() {
+        let queue = queues
+            .get_mut_by_id(event.queue_id())
+            .expect("event queue resource should be accessible");
+
+        // SAFETY: passed pointer was obtained using this event data.
+        unsafe { event.reset(queue.into_inner()) };
+    }
+}""", """    let _ = &mut queues;
+}"""))
+mut("C09", "new_session_resource_unclassified", "a new resource written by the receive system is never reset", ["unclassified"],
+    ("src/client.rs", """pub(super) fn receive_replication(
+    world: &mut World,""", """#[derive(Resource, Default)]
+pub(crate) struct LastAppliedMessages(pub Vec<RepliconTick>);
+
+pub(super) fn receive_replication(
+    world: &mut World,"""),
+    ("src/client.rs", """                                let mut stats = world.remove_resource::<ClientReplicationStats>();""", """                                if let Some(mut last) = world.get_resource_mut::<LastAppliedMessages>() {
+                                    last.0.push(Default::default());
+                                }
+                                let mut stats = world.remove_resource::<ClientReplicationStats>();"""))
+mut("C09", "set_status_keeps_sent_queue", "unsent messages survive a disconnect", ["purges-both-queues"],
+    ("src/shared/backend/replicon_client.rs", "            self.sent_messages.clear();\n\n            self.stats", "            self.stats"))
+mut("C09", "set_status_purges_only_on_disconnected", "Connected -> Connecting keeps queued messages", ["purged-whenever-leaving-connected"],
+    ("src/shared/backend/replicon_client.rs", "if self.is_connected() && !matches!(status, RepliconClientStatus::Connected) {", "if self.is_connected() && matches!(status, RepliconClientStatus::Disconnected) && !self.received_messages.is_empty() {"))
+mut("C09", "client_send_when_disconnected", "client queues messages without a connection", ["RepliconClient::send/no-op-unless-connected"],
+    ("src/shared/backend/replicon_client.rs", """            warn!("trying to send a message when the client is not connected");
+            return;""", """            warn!("trying to send a message when the client is not connected");"""))
+mut("C09", "server_stop_keeps_received", "messages received before a stop are processed after restart", ["RepliconServer::set_running/purges-both-queues"],
+    ("src/shared/backend/replicon_server.rs", """            for receive_channel in &mut self.received_messages {
+                receive_channel.clear();
+            }
+            self.sent_messages.clear();""", """            self.sent_messages.clear();"""))
+mut("C09", "remove_client_keeps_received", "messages of a removed client stay queued", ["remove_client/both-queues"],
+    ("src/shared/backend/replicon_server.rs", """        for receive_channel in &mut self.received_messages {
+            receive_channel.retain(|&(entity, _)| entity != client);
+        }
+        self.sent_messages""", """        self.sent_messages"""))
+mut("C09", "server_reset_keeps_clients", "server stop does not despawn connected clients", ["despawns-all-clients"],
+    ("src/server.rs", """    for entity in &clients {
+        commands.entity(entity).despawn();
+    }
+}""", """    let _ = (&clients, &mut commands);
+}"""))
+mut("C09", "client_reset_on_connect_instead", "client state is reset on connect instead of on disconnect", ["ClientSet::Reset/runs-on-disconnect"],
+    ("src/client.rs", "ClientSet::Reset.run_if(client_just_disconnected),", "ClientSet::Reset.run_if(client_just_connected),"))
+mut("C09", "reset_after_receive", "the reset sets run after ClientSet::Receive", ["resets-before-receive"],
+    ("src/client.rs", """                    (
+                        ClientSet::ResetEvents.run_if(client_just_connected),
+                        ClientSet::Reset.run_if(client_just_disconnected),
+                    ),
+                    ClientSet::Receive,""", """                    ClientSet::Receive,
+                    (
+                        ClientSet::ResetEvents.run_if(client_just_connected),
+                        ClientSet::Reset.run_if(client_just_disconnected),
+                    ),"""))
+mut("C09", "server_reset_not_on_stop", "server reset gated by server_running", ["server::reset/runs-on-stop", "reset-on-stop", "reset-system"],
+    ("src/server.rs", "reset.run_if(server_just_stopped),", "reset.run_if(server_running),"))
